@@ -117,6 +117,19 @@ CLAIMED["C01"] = (
     "DESIGN.md section 3, C01",
 )
 
+CLAIMED["C02"] = (
+    "PEG model of the grammar table (precedence, node types, modifier actions) + syntax/type rules on the tree builder and the traversal functions + by-value slice-ownership rule + aggregation census + shape rules on embedded Rego helpers parsed with OPA's parser",
+    "Structural necessary conditions of 'paths denote composition, union and converse': the grammar gives | tighter binding than /, the builder keeps every element and maps operators to the right node types, the traversal unions all alternatives, composes from each head result with node fetching on and emits the converse search for ^, traversal state is never extended in place when shared between alternatives, consumers use the set aggregation (except uniqueValues), and search_subjects/find have the dereferencing shape. Each is visible in the code for all paths and graphs.",
+    "Value-level semantics of the Rego helpers and OPA's partial-set semantics are trusted; transitive paths are parsed but not generated (repository TODO). " + TRUST,
+    "DESIGN.md section 3, C02",
+)
+CLAIMED["C12"] = (
+    "structural rules on the id assignment and on every node constructor (embedded Rego object literals parsed with OPA's parser, trace-value templates instantiated and parsed), argument-identity rules on error(...) call templates, census of post-processing in the JSON encoder",
+    "Decided: the id scheme parent_key / parent_index is applied to every typed node and is injective for the node constructors that exist (no numeric keys, at most one array-of-nodes key each); results are appended without gaps; both variants of error()/trace() carry all required keys; focusNode is the @id of a variable that the emitted code binds from the input graph; sourceShapeName is the validation name or `nested`; one dialect instance encodes one report; the JSON text is the encoder's output untouched.",
+    "encoding/json's validity and non-emptiness of messages/traces for degenerate profiles are not decided. " + TRUST,
+    "DESIGN.md section 3, C12",
+)
+
 # properties without a check yet (or declined), with the reason
 NOT_APPLICABLE = {
 }
